@@ -127,15 +127,27 @@ def main():
     # every 5th model: RSQRT on arbitrary (also negative) inputs, so that the
     # FLOAT reference holds NaN/inf where the quantized model stays finite
     nonfinite = (k % 5 == 3)
+    # every 7th model: 16-bit activations with tiny weights and ordinary biases:
+    # the int64 bias codes exceed the int32 range
+    wide_bias = (k % 7 == 5) and not nonfinite
     gg.RSQRT_ANY = nonfinite
+    saved_kinds = gg.CONST_KINDS
+    if wide_bias:
+      gg.CONST_KINDS = ['tiny', 'tiny', 'normal']
     try:
       mb, info = gg.gen_model(rng, max_ops=rng.choice([3, 5, 8]),
-                              op_weights=(['RSQRT'] * 2 + gg.SUPPORTED) if nonfinite else None)
+                              op_weights=(['RSQRT'] * 2 + gg.SUPPORTED) if nonfinite else
+                              (['FULLY_CONNECTED'] * 3 + ['CONV_2D', 'TANH', 'ADD'] if wide_bias else None))
     finally:
       gg.RSQRT_ANY = False
+      gg.CONST_KINDS = saved_kinds
     dist['nonfinite_stream'] += int(nonfinite)
+    dist['wide_bias_stream'] += int(wide_bias)
     qt = quantizer.Quantizer(bytearray(mb))
-    if nonfinite and rng.random() < 0.7:
+    if wide_bias:
+      desc = 'default_a16w8_recipe'
+      qt.load_quantization_recipe(copy.deepcopy(ship[desc]))
+    elif nonfinite and rng.random() < 0.7:
       desc = 'default_a8w8_recipe'          # int8 RSQRT stays finite out of domain
       qt.load_quantization_recipe(copy.deepcopy(ship[desc]))
     elif rng.random() < 0.5:
